@@ -185,78 +185,10 @@ fn request_field_section(k: u8) {
 // a counterexample that passes natively (the slice sort moves `(&str, &str)` pairs through raw-pointer selects, which
 // CBMC over-approximates - DESIGN §3 6c). The rule is therefore OUTSIDE the claim of C16 (seeded mutant C16 is missed).
 
-// @h props=C14,C16 tier=quick t=2400 mem=20 sub=qpack-string-roundtrip
-// @fn wtransport-proto/src/qpack.rs Encoder::encode_string::<7> Decoder::decode_string::<7> Encoder::encode_integer Decoder::decode_integer (over the model Huffman coder)
-// @bound every ASCII string of exactly 3 bytes (covers the model code's shrinking case `ccc` and the non-shrinking case), flag bit arbitrary
-// @oracle H bit set iff the coded form is strictly shorter; length prefix == coded length; decode(encode(s)) == s consuming exactly the encoding
-// @assume model Huffman coder (invertible; shrinks runs of three equal bytes)
-#[kani::proof]
-#[kani::unwind(12)]
-#[kani::stub(core::str::validations::run_utf8_validation, crate::vh::util::utf8_validation_stub)]
-fn m_qpack_string_roundtrip_3() {
-    use crate::qpack::verif as q;
-    let sb: [u8; 3] = kani::any();
-    kani::assume(sb[0] < 0x80 && sb[1] < 0x80 && sb[2] < 0x80);
-    let s = unsafe { core::str::from_utf8_unchecked(&sb) };
-    let mut out: Vec<u8> = Vec::with_capacity(8);
-    q::encode_string::<7, _>(0, s, &mut out).unwrap();
-    let shrinks = sb[0] == sb[1] && sb[1] == sb[2];
-    let h = out[0] & 0x80 != 0;
-    assert!(h == shrinks, "H bit must be set iff the Huffman form is strictly shorter");
-    let l = (out[0] & 0x7f) as usize;
-    assert!(out.len() == 1 + l, "length prefix differs from the coded length");
-    assert!(l == if shrinks { 2 } else { 3 });
-    if !shrinks {
-        assert!(out[1] == sb[0] && out[2] == sb[1] && out[3] == sb[2], "literal string bytes altered");
-    }
-    out.push(0xEE);
-    let total = out.len();
-    let mut rd: &[u8] = &out[..];
-    match q::decode_string::<7>(&mut rd) {
-        Ok(back) => {
-            assert!(back.len() == 3 && eq_prefix(back.as_bytes(), &sb, 3), "decode(encode(s)) != s");
-            assert!(rd.len() == 1 && rd[0] == 0xEE, "decoder did not consume exactly the encoding");
-            core::mem::forget(back);
-        }
-        Err(_) => assert!(false, "decode(encode(s)) failed"),
-    }
-    kani::cover!(shrinks, "Huffman-shrinking string");
-    kani::cover!(!shrinks, "literal string");
-    core::mem::forget(out);
-}
+// NOTE: a string-kernel round trip over the model Huffman coder (H bit set iff the coded form is shorter) ran out of
+// 20 GB: the coder's two branches allocate under a symbolic condition. The H-bit rule is outside the claim; the
+// literal (H=0) path is decided in kani/proto (c11_qpack_decode_string_*), the length prefix by the integer kernels.
 
-// @h props=C11,C12 tier=quick t=2400 mem=20 sub=field-section-dynamic-refs
-// @fn wtransport-proto/src/qpack.rs Decoder::{decode,decode_field_line_type}; wtransport-proto/src/headers.rs Headers::with_frame
-// @bound field sections 00 00 followed by one line of 2 symbolic bytes whose first byte makes it: an indexed line into the dynamic table, a post-base indexed line, a name reference into the dynamic table, a post-base name reference, or an indexed static line with index 99..=190
-// @oracle all of them are decoding errors (=> QPACK_DECOMPRESSION_FAILED through Headers::with_frame), never a panic, never an accepted field
-// @assume model map
-#[kani::proof]
-#[kani::unwind(8)]
-#[kani::stub(core::str::validations::run_utf8_validation, crate::vh::util::utf8_validation_stub)]
-fn m_field_section_dynamic_refs() {
-    use crate::frame::Frame;
-    use std::borrow::Cow;
-    let b0: u8 = kani::any();
-    let b1: u8 = kani::any();
-    let class: u8 = kani::any();
-    kani::assume(class < 5);
-    match class {
-        0 => kani::assume(b0 & 0xC0 == 0x80),                  // indexed, T=0 (dynamic)
-        1 => kani::assume(b0 & 0xF0 == 0x10),                  // indexed post-base
-        2 => kani::assume(b0 & 0xD0 == 0x40),                  // literal with name reference, T=0
-        3 => kani::assume(b0 & 0xF0 == 0x00),                  // literal with post-base name reference
-        _ => kani::assume(b0 == 0xFF && b1 >= 36 && b1 < 0x80), // indexed static, index = 63 + b1 >= 99
-    }
-    let payload = [0x00, 0x00, b0, b1];
-    let f = Frame::new_headers(Cow::Borrowed(&payload[..]));
-    let r = Headers::with_frame(&f);
-    match &r {
-        Err(e) => {
-            assert!(e.to_code().into_inner() == 0x200, "field section error must be QPACK_DECOMPRESSION_FAILED");
-            kani::cover!(class == 4, "static index out of range refused");
-            kani::cover!(class == 1, "post-base index refused");
-        }
-        Ok(_) => assert!(false, "dynamic-table reference / out-of-range static index accepted"),
-    }
-    core::mem::forget(r);
-}
+// NOTE: `Headers::with_frame` on `00 00` + one dynamic-table reference line (2 symbolic bytes) ran out of 20 GB after
+// 37 min, like every other whole-function use of `Decoder::decode`. The decoder's reaction to dynamic references is
+// decided on its kernels only (c11_qpack_line_type_and_table: line classes and the static-table bound).
